@@ -278,11 +278,15 @@ func TestC16_MemoryPerName(t *testing.T) {
 			g.readonly = true // the bystander is not authenticated: no write step
 		}, func(i int) []string { return []string{fmt.Sprintf("una%06d", i)} }},
 	}
-	httpNames := 30000
-	for _, ph := range phases {
+	httpNames := ev.Pick(15000, 30000)
+	for pi, ph := range phases {
 		c.Case()
 		ph.setup()
 		before := settle()
+		n := n
+		if pi == 1 {
+			n = ev.Pick(50000, 100000)
+		}
 		lines, err := floodNames(g.p.Addr, n, ph.mk)
 		if lines < n {
 			// a dying process keeps its sockets for a moment
